@@ -7,6 +7,7 @@ CONSTANTS
   MaxTs = 4
   MaxRepl = 3
   MaxWrites = 4
+  MergeRestamp = TRUE
   NoSkew = TRUE
   ArmQuota = 3
   EnableRename = FALSE
